@@ -776,6 +776,14 @@ def do_par(w: World, op: dict):
     async def lr(i, tk):
         kw = _kw(w, tk)
         e = tk.get("e", 0) if len(w.envs) > 1 else 0
+        if tk.get("sync"):
+            # a coroutine calling the SYNCHRONOUS API while the event loop is running (legal: the
+            # sync calls never touch the loop), between other callers' awaits
+            await park("pre")
+            w.count("sync_call_inside_running_loop")
+            t = w.envs[e].get_template(tk["name"], globals=tk.get("g"), **kw)
+            await park("gap")
+            return t.render(**w.data_for(tk["data"], f"T{i}"))
         t = await w.envs[e].get_template_async(tk["name"], globals=tk.get("g"), **kw)
         await park("gap")
         return await t.render_async(**w.data_for(tk["data"], f"T{i}"))
@@ -1461,6 +1469,21 @@ def gen_plan(seed: int, tier: str) -> dict:
             at = rng2.randrange(len(ops) + 1)
             f = lr_fields()
             ops[at:at] = [{"op": "chdir"}, {"op": "lr", "id": nid(), **f}]
+    for op in ops:
+        if op["op"] == "par" and not op.get("threads"):
+            for tk in op["tasks"]:
+                if tk["t"] == "lr" and rng2.random() < 0.15:
+                    tk["sync"] = True
+    if not is_ns and n_locs >= 2 and rng2.random() < 0.3:
+        # the same name stored in two search paths / loaders from the start, written at the same
+        # instant (equal mtimes): the lower-priority copy only shows when the other one goes
+        for m in list(init):
+            if m["op"] == "write" and rng2.random() < 0.5:
+                other = [li for li in range(n_locs) if li != m["li"]]
+                init.append({**m, "li": rng2.choice(other), "struct": dict(m["struct"])})
+                placed[m["name"]].add(init[-1]["li"])
+    if is_ns and rng2.random() < 0.3:
+        cfg["thread_safe"] = True
     if is_ns and cfg["thread_safe"]:
         # caller threads on a cache built thread-safe (the mixin's thread_safe=True)
         for op in ops:
@@ -1474,6 +1497,8 @@ def gen_plan(seed: int, tier: str) -> dict:
                 f.pop("mode")
                 f.pop("direct", None)
                 tasks.append({"t": "lr", **f})
+            for _ in range(rng2.choice([0, 1, 1, 2])):
+                tasks.append({"t": "w", "w": mutation()})
             ops.insert(rng2.randrange(len(ops) + 1), {"op": "par", "id": nid(), "tasks": tasks, "threads": True})
     # application code passing its own render context to get_template() / load()
     for op in ops:
